@@ -12,9 +12,12 @@
     transcriptions of the Rust (Model/Date.v, Model/DateExtra.v) with trapping integer arithmetic:
     [Val v] = returns v, [Panic] = traps.  Every equation [f args = Val ...] therefore also says that
     [f] does not trap on those arguments. *)
-From Coq Require Import ZArith List Bool.
+From Coq Require Import ZArith List Bool String.
+Import ListNotations.
 From V Require Import Base.Int Base.IO Spec.Gregorian Model.Date Model.DateExtra
-  Proofs.C08Sweeps Proofs.C08Date Proofs.C08Days Proofs.C08AddDays Proofs.C08.
+  Proofs.C08Sweeps Proofs.C08Date Proofs.C08Days Proofs.C08AddDays Proofs.C08 Proofs.C08Dt Proofs.C08Holds.
+From V Require Model.Time Model.DateTime Model.C08 Judge.C08.
+Import V.Model.C08.
 Open Scope Z_scope.
 
 (* ---- the canonical encoding: (year, ordinal) decodes to the represented date, or to nothing *)
@@ -156,6 +159,16 @@ Theorem C08_week_days : forall y o d w, repr y o d -> 0 <= w <= 6 ->
 Proof. exact week_days_spec. Qed.
 Print Assumptions C08_week_days.
 
+(* first_day / last_day / days: the same dates, a trap exactly when the checked form has nothing *)
+Theorem C08_week_panicking : forall y o d w, repr y o d -> 0 <= w <= 6 ->
+  let f := week_start (dn_of_yo y o) w in
+  week_first_day (d_week d w) = (if dn_in_range f then Val (date_of_dn f) else Panic) /\
+  week_last_day (d_week d w) = (if dn_in_range (f + 6) then Val (date_of_dn (f + 6)) else Panic) /\
+  week_days (d_week d w) =
+    (if dn_in_range f && dn_in_range (f + 6) then Val (date_of_dn f, date_of_dn (f + 6)) else Panic).
+Proof. exact week_panicking_spec. Qed.
+Print Assumptions C08_week_panicking.
+
 (* ---- n-th given weekday of a month: all (year : i32, month : u32, weekday, n : u8) *)
 Theorem C08_nth_weekday : forall y m w n, in_i32 y = true -> in_u32 m = true -> 0 <= w <= 6 -> in_u8 n = true ->
   from_weekday_of_month_opt y m w n = Val (
@@ -202,6 +215,74 @@ Theorem C08_month_num_days : forall m y, 1 <= m <= 12 -> in_i32 y = true ->
   Val (if (m =? 2) && negb (year_in_range y) then None else Some (days_in_month (is_leap y) m)).
 Proof. exact month_num_days_spec. Qed.
 Print Assumptions C08_month_num_days.
+
+(* ---- date-times.  [dz_ok a y o s fr off]: the zone-aware value [a] has the UTC date (y, o), UTC second
+   of day [s], fraction [fr] and the fixed offset [off]; its wall clock shows the date with day number
+   [local_dn y o s off] (possibly one day outside the range of dates) at second [local_secs s off]. *)
+Theorem C08_dt_years_since : forall a y1 o1 s1 f1 off1 b y0 o0 s0 f0 off0,
+  dz_ok a y1 o1 s1 f1 off1 -> dz_ok b y0 o0 s0 f0 off0 ->
+  dz_years_since a b =
+  Val (let '(yy1, m1, d1) := ymd_of_dn (local_dn y1 o1 s1 off1) in
+       let '(yy0, m0, d0) := ymd_of_dn (local_dn y0 o0 s0 off0) in
+       let earlier := (m1 <? m0) || ((m1 =? m0) && ((d1 <? d0) || ((d1 =? d0) &&
+                        ((local_secs s1 off1 <? local_secs s0 off0)
+                         || ((local_secs s1 off1 =? local_secs s0 off0) && (f1 <? f0)))))) in
+       let n := yy1 - yy0 - (if earlier then 1 else 0) in
+       if 0 <=? n then Some n else None).
+Proof. exact dz_years_since_expanded. Qed.
+Print Assumptions C08_dt_years_since.
+
+(* NaiveDateTime: month stepping and date-field replacement act on the date and keep the time of day *)
+Theorem C08_ndt_months : forall a y o n, repr y o (DateTime.nd_date a) -> in_u32 n = true ->
+  DateTime.ndt_checked_add_months a n = Val (with_time_of a (shift_months y o n)) /\
+  DateTime.ndt_checked_sub_months a n = Val (with_time_of a (shift_months y o (- n))).
+Proof. exact ndt_add_months_spec. Qed.
+Print Assumptions C08_ndt_months.
+Theorem C08_ndt_with : forall a y o f x, repr y o (DateTime.nd_date a) -> 0 <= f <= 6 ->
+  DateTime.ndt_with f a x = bind (d_with f (DateTime.nd_date a) x) (fun r => Val (with_time_of a r)).
+Proof. exact ndt_with_spec. Qed.
+Print Assumptions C08_ndt_with.
+
+(* the neighbouring day (used by the wall-clock reading): day number +-1, nothing outside the range *)
+Theorem C08_succ_pred : forall y o d, repr y o d ->
+  succ_opt d = Val (if dn_in_range (dn_of_yo y o + 1) then Some (date_of_dn (dn_of_yo y o + 1)) else None) /\
+  pred_opt d = Val (if dn_in_range (dn_of_yo y o - 1) then Some (date_of_dn (dn_of_yo y o - 1)) else None).
+Proof. exact succ_pred_spec. Qed.
+Print Assumptions C08_succ_pred.
+
+(* ---- the property's executable statement (Judge/C08.v: written from the property text over
+   Spec/Gregorian.v, imports nothing of the model) accepts the model's output on every in-domain case
+   of these operations.  [denc y o] = the case encoding (y, o) of a date; [fname f] the field names
+   year, month, month0, day, day0, ordinal, ordinal0 (f = 0..6); [field_arg_ok]: i32 for year, u32 else. *)
+Theorem C08_holds_addm : forall y o n, year_in_range y = true -> valid_yo y o = true -> in_u32 n = true ->
+  V.Judge.C08.judge (B"d8.addm") [denc y o; VInt n] (V.Model.C08.run (B"d8.addm") [denc y o; VInt n]) = JOk.
+Proof. exact holds_addm. Qed.
+Print Assumptions C08_holds_addm.
+Theorem C08_holds_subm : forall y o n, year_in_range y = true -> valid_yo y o = true -> in_u32 n = true ->
+  V.Judge.C08.judge (B"d8.subm") [denc y o; VInt n] (V.Model.C08.run (B"d8.subm") [denc y o; VInt n]) = JOk.
+Proof. exact holds_subm. Qed.
+Print Assumptions C08_holds_subm.
+Theorem C08_holds_with : forall f y o x, 0 <= f <= 6 -> year_in_range y = true -> valid_yo y o = true ->
+  V.Judge.C08.field_arg_ok f x = true ->
+  V.Judge.C08.judge (B"d8.with") [VStr (fname f); denc y o; VInt x]
+    (V.Model.C08.run (B"d8.with") [VStr (fname f); denc y o; VInt x]) = JOk.
+Proof. exact holds_with. Qed.
+Print Assumptions C08_holds_with.
+Theorem C08_holds_week_bounds : forall y o w, year_in_range y = true -> valid_yo y o = true -> 0 <= w <= 6 ->
+  V.Judge.C08.judge (B"d8.wfirst") [denc y o; VInt w] (V.Model.C08.run (B"d8.wfirst") [denc y o; VInt w]) = JOk /\
+  V.Judge.C08.judge (B"d8.wlast") [denc y o; VInt w] (V.Model.C08.run (B"d8.wlast") [denc y o; VInt w]) = JOk.
+Proof. exact holds_week_bounds. Qed.
+Print Assumptions C08_holds_week_bounds.
+Theorem C08_holds_nthwd : forall y m w n, in_i32 y = true -> in_u32 m = true -> 0 <= w <= 6 -> in_u8 n = true ->
+  V.Judge.C08.judge (B"d8.nthwd") [VInt y; VInt m; VInt w; VInt n]
+    (V.Model.C08.run (B"d8.nthwd") [VInt y; VInt m; VInt w; VInt n]) = JOk.
+Proof. exact holds_nthwd. Qed.
+Print Assumptions C08_holds_nthwd.
+Theorem C08_holds_years : forall y1 o1 y0 o0, year_in_range y1 = true -> valid_yo y1 o1 = true ->
+  year_in_range y0 = true -> valid_yo y0 o0 = true ->
+  V.Judge.C08.judge (B"d8.years") [denc y1 o1; denc y0 o0] (V.Model.C08.run (B"d8.years") [denc y1 o1; denc y0 o0]) = JOk.
+Proof. exact holds_years. Qed.
+Print Assumptions C08_holds_years.
 
 (* ---- the hypotheses are inhabited: 2024-01-31 (+1 month -> leap day), the range ends *)
 Example C08_ex_repr : repr 2024 31 (mkdate 2024 31) /\ repr (-262143) 1 (mkdate (-262143) 1)
